@@ -470,6 +470,56 @@ theorem early_stop_sound (re : Regex) (hre : DotStar re) (c : Ctx) (vs : Virtual
 
 /-! ## 4. Actions and weights -/
 
+/-- **cluster_correct.**  `GetDestinationCluster` names the cluster the API text designates. -/
+theorem cluster_correct (c : Ctx) (d : Destination) : destinationCluster c d = specCluster c d := by
+  unfold destinationCluster specCluster destHost destPort specHost specPort
+  cases hh : d.host.isEmpty
+  · simp only [Bool.false_eq_true, ↓reduceIte]
+    cases hl : c.lookupService d.host with
+    | none => rfl
+    | some s =>
+      have e1 : (if s.externalName != "" then s.externalName else d.host) = (if s.externalName == "" then d.host else s.externalName) := by
+        cases hx : (s.externalName == "") <;> simp [bne, hx]
+      simp only [e1]
+      cases d.port with
+      | some p => rfl
+      | none =>
+        simp only
+        cases hp : s.ports with
+        | nil => rfl
+        | cons p ps => cases ps <;> simp
+  · simp
+
+theorem elide_default_port (sc : String) (n : Nat) :
+    (if (n == 80 && sc == "http") = true then 0 else if (n == 443 && sc == "https") = true then 0 else n)
+      = (if isDefaultPort sc n = true then 0 else n) := by
+  unfold isDefaultPort
+  cases h1 : (n == 80) <;> cases h2 : (sc == "http") <;> cases h3 : (n == 443) <;> cases h4 : (sc == "https") <;> simp
+
+/-- **redirect_correct.**  `ApplyRedirect` (supported code) builds the redirect the API text describes. -/
+theorem redirect_correct (c : Ctx) (rd : Redirect) : redirectAction c rd = specRedirect c rd := by
+  have hport : redirectPort c rd = specRedirectPort c rd := by
+    unfold redirectPort specRedirectPort redirectPort0
+    have hsc : (if rd.scheme != "" then rd.scheme else if c.isTLS then "https" else "http") = effScheme c rd := rfl
+    cases hp : rd.port with
+    | unset => simp
+    | fromProtocolDefault =>
+      simp only [hsc]
+      have := elide_default_port (effScheme c rd) 0
+      simp only [show ((RedirectPortSel.fromProtocolDefault == RedirectPortSel.unset) = false) from rfl, Bool.false_eq_true,
+        ↓reduceIte]
+      rw [this]
+      simp [isDefaultPort]
+    | port n =>
+      simp only [hsc, show ((RedirectPortSel.port n == RedirectPortSel.unset) = false) from rfl, Bool.false_eq_true, ↓reduceIte]
+      exact elide_default_port (effScheme c rd) n
+    | fromRequestPort =>
+      simp only [hsc, show ((RedirectPortSel.fromRequestPort == RedirectPortSel.unset) = false) from rfl, Bool.false_eq_true,
+        ↓reduceIte]
+      exact elide_default_port (effScheme c rd) c.listenPort
+  unfold redirectAction specRedirect
+  rw [hport]
+
 /-- The generated action means what the rule says (destinations / redirect with a supported code /
     direct response). -/
 theorem action_correct (c : Ctx) (r : HTTPRoute) (h : redirectOK r = true) :
@@ -478,12 +528,12 @@ theorem action_correct (c : Ctx) (r : HTTPRoute) (h : redirectOK r = true) :
   cases hr : r.redirect with
   | some rd =>
     rw [hr] at h
-    simp [applyRedirect, h, Action.decision]
+    simp [applyRedirect, h, Action.decision, redirect_correct]
   | none =>
     cases hd : r.direct with
     | some d => simp [Action.decision]
     | none =>
-      simp only [routeAction, specForward]
+      simp only [routeAction, specForward, ← cluster_correct]
       cases r.route with
       | nil => simp [Action.decision]
       | cons d ds => cases ds <;> simp [Action.decision]
